@@ -1,7 +1,9 @@
 (* C07 — Flush, compaction and eviction never change table content.
    Statements are about Model/TableSM.v and Model/WalSM.v.  [run true] is the guarded run: it stops
-   (outcome Known KF1 / Known KF3) where compaction would execute a known-defect site; the faithful
-   run [run false] executes them, and C07_compaction_loses_nulls_refuted shows what then happens. *)
+   (outcome Known KF1) where compaction would execute the site of the open finding F1, and
+   (outcome Known KF3) where its name set would not cover the merged rows - unreachable for
+   well-formed requests since F3 was fixed, see C13_compaction_carries_all; the faithful run
+   [run false] executes them, and C07_compaction_loses_nulls_refuted shows what then happens. *)
 From Coq Require Import NArith ZArith List Bool Lia.
 From LV Require Import Model.TableSM Model.Catalogue Model.WalSM
      Proofs.TableSM Proofs.WalSMBase Proofs.WalSM Proofs.WalSMLog Proofs.WalSMFlush.
@@ -82,7 +84,7 @@ Qed.
    some rows and not in others does not preserve content - the NULL comes back as 0.  The witness:
    one batch with a = [10, NULL], one forced flush with partition_combine_factor = 0. *)
 Definition f1_cfg : cfg :=
-  {| c_factor := 0; c_max_wal_files := 1000; c_max_wal_bytes := 67108864; c_seed := s_column_names |}.
+  {| c_factor := 0; c_max_wal_files := 1000; c_max_wal_bytes := 67108864 |}.
 Definition f1_t : name := [116; 49].
 Definition f1_id : name := [105; 100].
 Definition f1_a : name := [97].
